@@ -56,6 +56,8 @@ pub struct Spec {
     pub stderr: Stdout,
     /// file-mode creation mask of the child
     pub umask: Option<u32>,
+    /// restrict the child to the first N CPUs (what `available_parallelism()` reports)
+    pub cpus: Option<usize>,
 }
 
 #[derive(Clone, Debug, PartialEq, Eq)]
@@ -211,13 +213,21 @@ pub fn run(spec: &Spec) -> Outcome {
             }
         },
     }
-    if spec.rm_cwd || spec.mem_limit.is_some() || spec.umask.is_some() {
+    if spec.rm_cwd || spec.mem_limit.is_some() || spec.umask.is_some() || spec.cpus.is_some() {
         let cwd_c = std::ffi::CString::new(spec.cwd.as_os_str().as_encoded_bytes().to_vec()).ok();
         let rm = spec.rm_cwd;
         let lim = spec.mem_limit;
         let um = spec.umask;
+        let cpus = spec.cpus;
         unsafe {
             c.pre_exec(move || {
+                if let Some(n) = cpus {
+                    let mut set: libc::cpu_set_t = std::mem::zeroed();
+                    for i in 0..n.max(1) {
+                        libc::CPU_SET(i, &mut set);
+                    }
+                    libc::sched_setaffinity(0, std::mem::size_of::<libc::cpu_set_t>(), &set);
+                }
                 if let Some(m) = um {
                     libc::umask(m as libc::mode_t);
                 }
